@@ -183,7 +183,7 @@ Lemma stages_good9 : forall sel all m1 m2 m3 m4 m5 m7 m9,
   run_ops t magic_ops m4 = Ok m5 ->
   run_ops t stddir_ops (exclude (unstaged all m1) m5) = Ok m7 ->
   run_ops t (script_ops (i_script i)) (add_missing_dirs m7) = Ok m9 ->
-  Forall good (keys m9).
+  Forall good (keys m7) /\ Forall good (keys m9).
 Proof.
   intros sel all m1 m2 m3 m4 m5 m7 m9 E_sel E1 E2 E3 E4 E5 E7 E9.
   pose proof (gi_tree _ GI) as HT. fold t in HT.
@@ -209,12 +209,13 @@ Proof.
   { eapply good_step; [apply exclude_keys_from|exact G5|]. intros k []. }
   assert (G7 : Forall good (keys m7)).
   { eapply good_step; [apply run_ops_keys; eauto|exact G6|]. intros k Hk. exact (ops_good_names _ _ HT stddir_good k Hk). }
+  split; [exact G7|].
   eapply good_step; [apply run_ops_keys; eauto|now apply add_missing_good|].
   intros k (li & Hin & Hk). eapply op_targets_good; eauto. intros Hw. eapply gi_script; eauto.
 Qed.
 Lemma stages_good : Forall good (keys mf) /\ (forall k p, mem k mf = true -> In p (nrparents k) -> mem p mf = true).
 Proof.
-  destruct ST. subst mf. pose proof (stages_good9 _ _ _ _ _ _ _ _ _ E_sel E1 E2 E3 E4 E5 E7 E9) as G9.
+  destruct ST. subst mf. destruct (stages_good9 _ _ _ _ _ _ _ _ _ E_sel E1 E2 E3 E4 E5 E7 E9) as [_ G9].
   split; [now apply add_missing_good|]. intros k p. now apply add_missing_closed.
 Qed.
 End Pipeline.
